@@ -68,7 +68,8 @@ Inductive wqevent :=
 
 (* ---------------------------------------------------------------- graph state *)
 Record gnode := mkG { gn_children : list N; gn_tasks : list N; gn_pending : nat }.
-Record tnode := mkT { tn_done : bool; tn_streams : list N }.
+(* tn_owed: a group pruned as complete relies on the delivery of the value by another group *)
+Record tnode := mkT { tn_done : bool; tn_streams : list N; tn_owed : bool }.
 
 Record state := mkS {
   roots : list N;                 (* _root_groups *)
@@ -136,7 +137,7 @@ Definition add_groups (E : env) (gs : list N) (ptask : bool) (gn : list (N * gno
 (* ---------------------------------------------------------------- _start_task / _start_group *)
 Definition start_task (t : N) (s : state) : state :=
   if ahas t (tnodes s) then s
-  else set_started (sadd t (started s)) (set_tnodes (aset t (mkT false []) (tnodes s)) s).
+  else set_started (sadd t (started s)) (set_tnodes (aset t (mkT false [] false) (tnodes s)) s).
 
 Definition start_group (g : N) (s : state) : state :=
   match aget g (gnodes s) with
@@ -167,7 +168,7 @@ Definition add_streams (ss : list N) (ptask : option N) (s : state) : list N * s
   | None => (ss, s)
   | Some t =>
       match aget t (tnodes s) with
-      | Some tn => ([], set_tnodes (aset t (mkT (tn_done tn) (tn_streams tn ++ ss)) (tnodes s)) s)
+      | Some tn => ([], set_tnodes (aset t (mkT (tn_done tn) (tn_streams tn ++ ss) (tn_owed tn)) (tnodes s)) s)
       | None => ([], s)
       end
   end.
@@ -212,21 +213,30 @@ Definition remove_group_top (E : env) (g : N) (n : gnode) (s : state) : state :=
 
 (* ---------------------------------------------------------------- _collect_completed_tasks *)
 (* values (identified by their tasks) and child streams of the completed tasks of a group node;
-   the tasks are removed from the graph *)
-Definition collect_completed (E : env) (n : gnode) (acc : list N * list N * state)
+   the tasks are removed from the graph.  With [orphaned_only], only the tasks that are not shared
+   with a group that is still part of the graph (and will deliver them). *)
+Definition collect_completed (E : env) (orphaned_only : bool) (n : gnode) (acc : list N * list N * state)
   : list N * list N * state :=
   fold_left (fun (st : list N * list N * state) t =>
     let '(vals, nss, s) := st in
+    if orphaned_only && existsb (fun g => ahas g (gnodes s)) (tgroups E t) then
+      (* a surviving group shares the task and will deliver its value: remember that the pruned
+         group relies on that delivery *)
+      match aget t (tnodes s) with
+      | Some tn => (vals, nss, set_tnodes (aset t (mkT (tn_done tn) (tn_streams tn) true) (tnodes s)) s)
+      | None => st
+      end
+    else
     match aget t (tnodes s) with
     | Some tn => ((if tn_done tn then vals ++ [t] else vals), nss ++ tn_streams tn, remove_task E t s)
     | None => st
     end) (gn_tasks n) acc.
 
 (* ---------------------------------------------------------------- _prune_empty_groups *)
-(* REPAIRED: a pruned group that has child groups and still holds completed tasks (shared with
-   another pending group, value not delivered yet) hands these values and streams to the finishing
-   parent ([flush] = called from _finish_group_success) before its children are promoted; the code
-   promotes the children without delivering them.
+(* A pruned group that still holds completed tasks hands values and streams to the finishing parent
+   ([flush] = called from _finish_group_success): all of them when it has child groups (they are
+   delivered before the children are promoted), otherwise only those of tasks that no surviving
+   group shares (nobody else would deliver them).
    result: non-empty groups, values, streams, state *)
 Fixpoint prune (fuel : nat) (E : env) (flush : bool) (gs : list N)
   (acc : list N * list N * list N * state) : list N * list N * list N * state :=
@@ -244,10 +254,9 @@ Fixpoint prune (fuel : nat) (E : env) (flush : bool) (gs : list N)
           | O =>
               let s1 := set_gnodes (adel g (gnodes s)) s in
               let '(vals1, nss1, s2) :=
-                match flush, gn_children n with
-                | true, _ :: _ => collect_completed E n (vals, nss, s1)
-                | _, _ => (vals, nss, s1)
-                end in
+                if flush
+                then collect_completed E (match gn_children n with [] => true | _ :: _ => false end) n (vals, nss, s1)
+                else (vals, nss, s1) in
               prune f E flush (gn_children n) (ne, vals1, nss1, s2)
           | S _ => (ne ++ [g], vals, nss, s)
           end
@@ -263,7 +272,7 @@ Definition prune_groups (E : env) (gs : list N) (s : state) : list N * state :=
 Definition finish_group_success (E : env) (g : N) (n : gnode) (s : state)
   : list wqevent * list N * list N * state :=
   let s1 := set_gnodes (adel g (gnodes s)) s in
-  let '(vals0, nss0, s2) := collect_completed E n ([], [], s1) in
+  let '(vals0, nss0, s2) := collect_completed E false n ([], [], s1) in
   let '(ngs, vals, nss, s3) :=
     prune (S (length (gnodes s2))) E true (gn_children n) ([], vals0, nss0, s2) in
   let s4 := set_roots (sdel g (roots s3)) s3 in
@@ -273,7 +282,7 @@ Definition finish_group_success (E : env) (g : N) (n : gnode) (s : state)
 Definition task_success (E : env) (t : N) (s : state) : list wqevent * state :=
   let s0 := set_settled (sadd t (settled s)) s in
   let s1 := match aget t (tnodes s0) with
-            | Some tn => set_tnodes (aset t (mkT true (tn_streams tn)) (tnodes s0)) s0
+            | Some tn => set_tnodes (aset t (mkT true (tn_streams tn) (tn_owed tn)) (tnodes s0)) s0
             | None => s0
             end in
   let '(_, _, s2) := integrate E (twork E t) (Some t) s1 in
@@ -300,6 +309,19 @@ Definition task_success (E : env) (t : N) (s : state) : list wqevent * state :=
   (evs, start_new_work ngs nss s3).
 
 (* ---------------------------------------------------------------- _task_failure *)
+(* completed values of the failing root group g that a group pruned as complete relied on and that no
+   surviving group shares: they are still delivered (REPAIRED: the code dropped them) *)
+Definition rescue (E : env) (g : N) (n : gnode) (s : state) : list N * state :=
+  fold_left (fun (st : list N * state) t =>
+    let '(vals, s) := st in
+    match aget t (tnodes s) with
+    | Some tn =>
+        if tn_owed tn && tn_done tn
+           && forallb (fun tg => (tg =? g) || negb (ahas tg (gnodes s))) (tgroups E t)
+        then (vals ++ [t], remove_task E t s) else st
+    | None => st
+    end) (gn_tasks n) ([], s).
+
 (* a failure event for every group of the task that still has a node, root or not *)
 Definition task_failure (E : env) (t : N) (s : state) : list wqevent * state :=
   let s0 := set_settled (sadd t (settled s)) s in
@@ -308,8 +330,11 @@ Definition task_failure (E : env) (t : N) (s : state) : list wqevent * state :=
     let '(evs, s) := st in
     match aget g (gnodes s) with
     | Some n =>
-        let s' := remove_group_top E g n s in
-        (evs ++ [GroupFailure g], set_roots (sdel g (roots s')) s')
+        let '(vals, sr) := if memN g (roots s) then rescue E g n s else ([], s) in
+        let n' := match aget g (gnodes sr) with Some m => m | None => n end in
+        let s' := remove_group_top E g n' sr in
+        (evs ++ (match vals with [] => [] | _ => [GroupValues g vals] end) ++ [GroupFailure g],
+         set_roots (sdel g (roots s')) s')
     | None => st
     end) (tgroups E t) ([], s1).
 
